@@ -770,6 +770,89 @@ func init() {
 			}
 		})
 
+	register("C10.R5", "a set/provider variable is resolved to its own initialiser: in objectCache.get the expression converted for a *types.Var is spec.Values[k] where k is the position at which spec.Names[k] is the variable's name (the index variable is the key of the scan over spec.Names, or assigned from it on a name match)",
+		func(c *Ctx, r *R) {
+			fi := r.Need(c.Fn(c.W, "objectCache.get"), "objectCache.get")
+			if fi == nil {
+				return
+			}
+			n := 0
+			for _, pe := range fi.callsTo(pathW + ".objectCache.processExpr") {
+				ix, ok := fi.deref(pe.Args[2]).(*ast.IndexExpr)
+				if !ok {
+					continue
+				}
+				f := fi.selField(ix.X)
+				if f == nil || f.Name() != "Values" {
+					continue
+				}
+				n++
+				spec := ix.X.(*ast.SelectorExpr).X
+				iv := fi.varOf(ix.Index)
+				if iv == nil {
+					r.Bad("get/value-index", ix.Pos(), "the initialiser index is not a variable")
+					continue
+				}
+				// a scan over spec.Names that determines iv by a name comparison
+				ok2 := false
+				fi.inspect(fi.Decl.Body, func(nd ast.Node) bool {
+					rs, isR := nd.(*ast.RangeStmt)
+					if !isR || rs.Key == nil {
+						return true
+					}
+					nf := fi.selField(rs.X)
+					if nf == nil || nf.Name() != "Names" || !fi.sameExpr(rs.X.(*ast.SelectorExpr).X, spec) {
+						return true
+					}
+					kv := fi.varOf(rs.Key)
+					for _, st := range rs.Body.List {
+						is, isIf := st.(*ast.IfStmt)
+						if !isIf {
+							continue
+						}
+						be, isB := ast.Unparen(is.Cond).(*ast.BinaryExpr)
+						if !isB || be.Op != token.EQL {
+							continue
+						}
+						// <names[k] or the range value>.Name == obj.Name()
+						nameSide, objSide := false, false
+						for _, side := range []ast.Expr{be.X, be.Y} {
+							if sel, isSel := ast.Unparen(side).(*ast.SelectorExpr); isSel && sel.Sel.Name == "Name" {
+								switch x := ast.Unparen(sel.X).(type) {
+								case *ast.IndexExpr:
+									if fi.sameExpr(x.X, rs.X) && fi.varOf(x.Index) == kv {
+										nameSide = true
+									}
+								case *ast.Ident:
+									if rs.Value != nil && fi.varOf(x) == fi.varOf(rs.Value) {
+										nameSide = true
+									}
+								}
+							}
+							if cl, isCall := ast.Unparen(side).(*ast.CallExpr); isCall && strings.HasSuffix(fi.calleeName(cl), ".Name") {
+								objSide = true
+							}
+						}
+						if !nameSide || !objSide || !terminates(is.Body) {
+							continue
+						}
+						// iv is the scan's own key (assigned by `for iv = range`), or set from the key in the match arm
+						if kv == iv {
+							ok2 = true
+						}
+						for _, s2 := range is.Body.List {
+							if as, isAs := s2.(*ast.AssignStmt); isAs && len(as.Lhs) == 1 && fi.varOf(as.Lhs[0]) == iv && fi.varOf(as.Rhs[0]) == kv {
+								ok2 = true
+							}
+						}
+					}
+					return true
+				})
+				r.Check(ok2, "get/value-index", ix.Pos(), "spec.Values is indexed by the position found by scanning spec.Names for the variable's own name (a shadowed or unrelated index would resolve every variable of a multi-name declaration to the first initialiser)")
+			}
+			r.Floor("initialiser lookups in objectCache.get", n, 1)
+		})
+
 	register("C11.R1", "validation table of processBind: exactly two arguments; arg 0 pointer to interface; (pointer mode) arg 1 a pointer whose element is the concrete type; not self-bound; types.Implements(concrete element type, interface) — all on every path to success, with the binding built from those very values",
 		func(c *Ctx, r *R) {
 			fi := r.Need(c.Fn(c.W, "processBind"), "processBind")
